@@ -66,7 +66,20 @@ class OwnerS:                  # slotted, weak-referenceable
     sig2 = Signal(E2)
 
 
-OWNERS = [OwnerA, OwnerB, OwnerV, OwnerS]
+class OwnerF:                  # instances are falsy (an empty container)
+    sig0 = Signal(E0)
+    sig1 = Signal(E1)
+
+    def __len__(self):
+        return 0
+
+
+class OwnerC(OwnerA):          # instances are made by copy.copy() of another instance whose signals are bound
+    pass
+
+
+OWNERS = [OwnerA, OwnerB, OwnerV, OwnerS, OwnerF, OwnerC]
+KEEP = []                      # the originals of copied instances stay alive
 
 
 def owner_attrs(k):
@@ -74,6 +87,12 @@ def owner_attrs(k):
 
 
 def make_owner(k):
+    if k == 5:
+        import copy
+        base = OwnerC()
+        base.sig0, base.sig1     # bind the original's signals first
+        KEEP.append(base)
+        return copy.copy(base)
     return OwnerV(1) if k == 2 else OWNERS[k]()
 
 
@@ -315,7 +334,7 @@ class Env:
 async def run_case(case):
     steps = []
     rng = random.Random(case.get("seed", "0"))
-    classes = case.get("classes") or [rng.randrange(4) for _ in range(rng.choice([1, 2, 3, 4]))]
+    classes = case.get("classes") or [rng.randrange(6) for _ in range(rng.choice([1, 2, 3, 4]))]
     async with anyio.create_task_group() as tg:
         env = Env(tg, rng, classes)
         fixed = case.get("ops")
